@@ -10,6 +10,7 @@
 //!   min=12|13  mode=ca|ss  authz=0|1 (server side)  name=<expected server name>|- (client side, ca mode)
 //!   trust=<pem> cert=<pem> key=<pem>      material of the endpoint under test (trust = peer_cert_path)
 //!   ctor=new                    (side=client) build the client with the deprecated TlsClientConfig::new
+//!   wildcard=0|1                (side=fficlient) allow_server_name_wildcard; name is then the dns_name verbatim ("*" included)
 //!   peer=openssl|rodbus|plain   offer=12|13|both
 //!   pmode=ca|ss ptrust=<pem> pcert=<pem> pkey=<pem> [pchain=<pem>]   material of the peer (pchain: intermediates
 //!                               an openssl peer sends along; a rodbus peer gets them inside pcert)
@@ -343,8 +344,13 @@ fn run_ffi_client(kv: &HashMap<String, String>, addr: SocketAddr) -> Result<Opti
     let c = |k: &str| CString::new(kv[k].as_str()).unwrap();
     let (trust, cert, key, empty) = (c("trust"), c("cert"), c("key"), CString::new("").unwrap());
     let name = kv.get("name").cloned().unwrap_or_else(|| "-".to_string());
-    let wildcard = name == "-";
-    let dns = CString::new(if wildcard { "*" } else { name.as_str() }).unwrap();
+    // wildcard=<0|1> sets allow_server_name_wildcard explicitly and name is passed as dns_name verbatim ("*" included);
+    // without it: name "-" means "no expected name" = dns_name "*" with the wildcard permitted
+    let (wildcard, dns_text) = match kv.get("wildcard").map(|s| s.as_str()) {
+        Some(w) => (w == "1", name.clone()),
+        None => (name == "-", if name == "-" { "*".to_string() } else { name.clone() }),
+    };
+    let dns = CString::new(dns_text.as_str()).unwrap();
     let host = CString::new(addr.ip().to_string()).unwrap();
     let (tx, rx) = std::sync::mpsc::channel::<i32>();
     let ctx: &'static Mutex<std::sync::mpsc::Sender<i32>> = Box::leak(Box::new(Mutex::new(tx)));
